@@ -237,9 +237,12 @@ Definition script_comment_body (s : lx * bool) : res (lp (lx * bool) (lx + lx)) 
     z2 <-- letters_loop z1 ;;
     h <-- hash_lexeme_from z2 mk ;;
     if h =? html_hash_Script then
-      if negb isend then Ok (Cont (z2, true))
-      else if negb inscript then Ok (Brk (inr (rewind z2 (mk - 2))))
-      else Ok (Cont (z2, false))
+      cz <-- pkr z2 0 ;;                               (* the byte that stopped the letter loop *)
+      if is_tagend cz || eof0 z2 cz then               (* <script-x and </script-x do not count *)
+        if negb isend then Ok (Cont (z2, true))
+        else if negb inscript then Ok (Brk (inr (rewind z2 (mk - 2))))
+        else Ok (Cont (z2, false))
+      else Ok (Cont (z2, inscript))
     else Ok (Cont (z2, inscript))
   else if eof0 z c then Ok (Brk (inr z))
   else Ok (Cont (mv z 1, inscript)).
